@@ -629,7 +629,7 @@ class C17(Profile):
         if rng.random() < 0.25:
             w = {**MULTI_W, "process": 3, "rawtree": 2, "conform_inner": 3, "mat": 3}
             return multi_gen(rng, tier, weights=w, flags_p=0.3, engines=["sql", "it"])
-        g = Gen(rng, engines=["sql"], weights={**UNARY_W, "chain": 2, "join": 2, "leaf": 1, "rawtree": 4, "conform_inner": 1,
+        g = Gen(rng, engines=["sql"], weights={**UNARY_W, "chain": 3.5, "join": 2, "leaf": 1, "rawtree": 3, "conform_inner": 1,
                                                "mat": 0.7, "process": 0.7},
                 max_ops=14 if big else 10, nleaves=(1, 3), adjacent_p=0.35, pipeline_p=0.4)
         return {"config": swarm_config(rng), "ops": g.build()}
@@ -664,7 +664,7 @@ class C18(Profile):
         w = {"calc": 3, "proj": 3, "sel": 3, "slice": 3, "chain": 3, "leaf": 1, "iterate": 5, "cursor_open": 1, "pull": 2,
              "abandon": 0.5}
         if not lazy_only:
-            w.update({"sort": 2, "dedup": 2, "mat": 2, "xfer": 0.7})
+            w.update({"sort": 2, "dedup": 2, "mat": 2, "xfer": 0.7, "reuse_mat": 0.8, "run": 1, "custom": 1})
         g = Gen(rng, engines=["it", "it2"] if rng.random() < 0.3 else ["it"], weights=w, max_ops=14 if big else 10,
                 nleaves=(1, 3), leaf_payloads=("simrows", "simrows", "simrows", "simmat", "seq", "map"), udf_p=0.05)
         return {"config": swarm_config(rng), "ops": g.build()}
